@@ -139,7 +139,7 @@ def run_items(engine, prop, tier, seed, n_items, jobs, wall_cap, stop_on_violati
     return agg, results
 
 
-def minimise(engine, prop, case, violation, budget_s=240.0):
+def minimise(engine, prop, case, violation, budget_s=150.0):
     """Greedy shrinking while the same (property, invariant) violation persists."""
     t0 = time.monotonic()
     attempts = [0]
@@ -159,7 +159,11 @@ def minimise(engine, prop, case, violation, budget_s=240.0):
         return None
 
     small = engine.shrink(case, fails)
-    v = fails(small) or violation
+    t0 = time.monotonic()  # the final confirmation is never cut by the shrinking budget
+    v = fails(small)
+    if v is None:
+        # never report a reduced case that does not fail: fall back to the original
+        small, v = case, violation
     return small, v, attempts[0]
 
 
@@ -268,6 +272,8 @@ def main(engine, prop, argv):
               f"PYTHONHASHSEED={os.environ.get('PYTHONHASHSEED')}")
         sys.stdout.flush()
         engine.prepare(prop, a.tier, a.seed)
+        import func_adl_xAOD
+        print(f"code under test: {os.path.dirname(os.path.abspath(func_adl_xAOD.__file__))}")
         if a.replay:
             return replay(engine, prop, a.replay)
         planned = engine.plan(prop, a.tier, a.seed)
@@ -293,7 +299,7 @@ def main(engine, prop, argv):
                 for v in rec["violations"]:
                     sig = engine.signature(rec["case"], v)
                     groups.setdefault(sig, (rec, v))
-            for sig, (rec, v) in list(groups.items())[:8]:
+            for sig, (rec, v) in list(groups.items())[:6]:
                 orig = _n_ops(rec["case"])
                 small, v2, attempts = minimise(engine, prop, rec["case"], v)
                 path, doc = write_replay(engine, prop, a.seed, rec, small, v2, orig, attempts)
